@@ -281,6 +281,13 @@ Definition lower_goto_time (g : option Z) (label_time : Z) : Z :=
    index = length means the end of the script (early.rs generate_offset_labels) *)
 Definition nth_time (times : list Z) (i : nat) : Z := nth i times 0.
 
+(* label ids stand for label names: 2*i for `label_<offset of instruction i>`, 2*k+1 for
+   `label_<offset of instruction k>r`.  The "r" label of target i is named after the previous
+   instruction i-1; for target 0 there is no previous instruction and the code uses offset 0 again
+   (early.rs:484 `0 => (0, 0)`), i.e. the same name as the "r" label of target 1. *)
+Definition label_id (is_r : bool) (i : nat) : Z :=
+  if is_r then match i with O => 1 | S k => 2 * Z.of_nat k + 1 end else 2 * Z.of_nat i.
+
 Definition label_for (times : list Z) (jumps : list (nat * option Z)) (i : nat) : option lab :=
   let args := map snd (filter (fun j => Nat.eqb (fst j) i) jumps) in
   match args with
@@ -290,8 +297,7 @@ Definition label_for (times : list Z) (jumps : list (nat * option Z)) (i : nat) 
       let next := if Nat.ltb i n then nth_time times i else nth_time times (n - 1) in
       let prev := match i with O => 0 | S k => nth_time times k end in
       let '(is_r, t) := label_at_offset prev next args in
-      (* label ids: 2*i for `label_<offset of i>`, 2*(i-1)+1 for `label_<offset of i-1>r` *)
-      Some {| l_id := if is_r then 2 * Z.of_nat i - 1 else 2 * Z.of_nat i; l_time := t |}
+      Some {| l_id := label_id is_r i; l_time := t |}
   end.
 
 Fixpoint script_einstrs_from (times all : list Z) (jumps : list (nat * option Z)) (i : nat) : list einstr :=
